@@ -109,8 +109,10 @@ def run(case):
     with C.scratch() as root:
         gd, written = W.write_world(world, root, knobs)
         C.prelude(world, knobs, root, out['faults'])
+        C.failed_loads_before(gd, knobs, out['faults'])
         tabs = {}
         for convert in (True, False):
+            C.failed_loads_before(gd, knobs)          # (when the knob is set) right before *each* load: conversion on, then off
             try:
                 with C.environment(knobs, out['faults'] if convert else None):
                     cat = C.load(gd, cleaned=case['cleaned'] or bool(world.get('lc')), subsamples=False,
